@@ -13,6 +13,8 @@ pub mod c09;
 pub mod c10;
 pub mod c11;
 pub mod c12;
+pub mod c13;
+pub mod c14;
 pub mod c15;
 pub mod c16;
 pub mod c17;
@@ -40,6 +42,8 @@ pub fn run(id: &str, tier: Tier, seed: u64, known: &[Known]) -> Option<Report> {
         "C10" => c10::run(tier, seed),
         "C11" => c11::run(tier, seed),
         "C12" => c12::run(tier, seed),
+        "C13" => c13::run(tier, seed),
+        "C14" => c14::run(tier, seed),
         "C15" => c15::run(tier, seed),
         "C16" => c16::run(tier, seed),
         "C17" => c17::run(tier, seed),
@@ -64,6 +68,8 @@ pub fn replay(id: &str, section: &str, case: &Value) -> Option<Result<(), String
         "C10" => c10::replay(section, case),
         "C11" => c11::replay(section, case),
         "C12" => c12::replay(section, case),
+        "C13" => c13::replay(section, case),
+        "C14" => c14::replay(section, case),
         "C15" => c15::replay(section, case),
         "C16" => c16::replay(section, case),
         "C17" => c17::replay(section, case),
@@ -74,6 +80,11 @@ pub fn replay(id: &str, section: &str, case: &Value) -> Option<Result<(), String
     }
 }
 
-pub fn child(_args: &[String]) -> i32 {
-    2
+pub fn child(args: &[String]) -> i32 {
+    match args.first().map(|s| s.as_str()) {
+        Some("c14") if args.len() >= 5 => c14::child_campaign(&args[1..]),
+        Some("c13-race") if args.len() >= 2 => c13::child_race(&args[1..]),
+        Some("c14-one") if args.len() >= 2 => c14::child_one(&args[1..]),
+        _ => 2,
+    }
 }
